@@ -310,7 +310,10 @@ pub fn c06(tier: Tier) -> i32 {
         vec![alpha::buy(off(b, -40), "X", "20", "10", "1"), alpha::buy(off(b, -40), "Y", "20", "5", "0"), alpha::sell(off(b, 0), "Y", "5", "9", "0.5"), alpha::sell(off(b, 0), "X", "6", "25", "0")],
         vec![alpha::sell(off(b, 0), "X", "6", "25", "0"), alpha::buy(off(b, 0), "X", "10", "11", "0"), alpha::split(off(b, 3), "X", "2")],
     ];
-    let bases = if tier == Tier::Quick { bases[..2].to_vec() } else { bases };
+    // a trade recorded as two identical same-day fills (identical lines are still two lines, in one file or in two)
+    let mut bases = bases;
+    bases.insert(2, vec![alpha::buy(off(b, -40), "X", "50", "10", "5"), alpha::buy(off(b, -40), "X", "50", "10", "5"), alpha::sell(off(b, 0), "X", "40", "15", "8")]);
+    let bases = if tier == Tier::Quick { bases[..3].to_vec() } else { bases };
     cli_file_splits(&ctx, &mut acc, &bases);
     ctx.alphabets.push(json!({"name": "cli-file-compositions", "bases": bases.iter().map(|b| dsl_text(b)).collect::<Vec<_>>(), "description": "every permutation x every composition into 1..n files x final newline present/absent, through `cgt-tool report a.cgt b.cgt ...`"}));
     ctx.require(acc.get("base-accepted") > 0 && acc.get("fills:bases-split") > 0 && acc.get("cli:multi-file-without-final-newline") > 0, "permutation/fill/file variants must all be exercised");
